@@ -308,7 +308,7 @@ func (p *Prog) BuildAliases() {
 			}
 		}
 		if mutual {
-			bind(best, g, " (same signature as other renamed functions; recognised by its callees)")
+			bind(best, g, " (same signature as other renamed functions; recognised by what it calls and touches)")
 		}
 	}
 	// 4. renamed unexported package variables: same package, same type, the
@@ -488,6 +488,14 @@ func (p *Prog) CalleeNames(fn *ssa.Function) []string {
 	walk = func(f *ssa.Function) {
 		for _, b := range f.Blocks {
 			for _, in := range b.Instrs {
+				// fields touched tell apart siblings that call the same things
+				// (include/exclude matchers): canonical names, so renamed fields agree
+				switch fa := in.(type) {
+				case *ssa.FieldAddr:
+					seen["field "+FieldOwnerName(fa.X.Type(), fa.Field)] = true
+				case *ssa.Field:
+					seen["field "+FieldOwnerName(fa.X.Type(), fa.Field)] = true
+				}
 				c, ok := in.(ssa.CallInstruction)
 				if !ok {
 					continue
